@@ -267,7 +267,9 @@ where
                 }
             }
             Op::Rollback => {
-                if self.dirty_since_commit { return Step::Pruned; }       // C04 speaks about rolling back from a committed state
+                // Rolling back with edits made since the last commit (in memory only: plain writes between commits are pruned above):
+                // the edits are discarded like everything else the undone commit did, or the call is refused and nothing changes.
+                let dirty = self.dirty_since_commit;
                 if self.commits.is_empty() && self.records > 0 { return Step::Pruned; }
                 let can = self.records > 0;
                 if can && self.commits.len() < 2 { return Step::Pruned; }   // the previous state is not in the model (written before the first commit)
@@ -277,8 +279,10 @@ where
                         self.commits.pop();
                         self.records -= 1;
                         self.cur = self.commits.last().unwrap().clone();
+                        self.dirty_since_commit = false;
                         Step::Ok
                     }
+                    (Err(_), true) if dirty => Step::Ok,  // refused from an edited state: state must be unchanged (checked by check_all)
                     (Err(e), true) => Step::Fail("C04.rollback".into(), format!("rollback inside the retention window refused: {e}")),
                     (Ok(()), false) => Step::Fail("C16.window".into(), format!("rollback beyond the retention window ({RETENTION}) succeeded")),
                     (Err(_), false) => Step::Ok,  // refused: state must be unchanged (checked by check_all)
